@@ -134,7 +134,7 @@ pub trait TyVisitor {
     fn visit<T: TypeInfo + ?Sized + 'static>(self) -> Self::Out;
 }
 
-pub const N_SHAPES: u8 = 64;
+pub const N_SHAPES: u8 = 72;
 const DELTAS: [usize; 3] = [0, 1, 5];
 
 fn with_shape_jk<const J: usize, const K: usize, V: TyVisitor>(shape: u8, v: V) -> V::Out {
@@ -202,6 +202,16 @@ fn with_shape_jk<const J: usize, const K: usize, V: TyVisitor>(shape: u8, v: V) 
         61 => v.visit::<Option<scale::Compact<N<J>>>>(),
         62 => v.visit::<scale::Compact<A<J>>>(),
         63 => v.visit::<(scale::Compact<N<J>>, N<K>)>(),
+        // the remaining built-in constructors: pairs of near-identical impls (Range / RangeInclusive,
+        // BTreeSet / BinaryHeap) and non-generic wrappers of primitives
+        64 => v.visit::<core::ops::Range<u32>>(),
+        65 => v.visit::<core::ops::RangeInclusive<u32>>(),
+        66 => v.visit::<core::ops::Range<N<J>>>(),
+        67 => v.visit::<core::ops::RangeInclusive<N<J>>>(),
+        68 => v.visit::<std::collections::BinaryHeap<N<J>>>(),
+        69 => v.visit::<core::num::NonZeroU32>(),
+        70 => v.visit::<core::num::NonZeroU8>(),
+        71 => v.visit::<core::time::Duration>(),
         _ => v.visit::<u64>(),
     }
 }
@@ -319,6 +329,12 @@ pub enum Ty {
     Set(Box<Ty>),
     Cow(Box<Ty>),
     Compact(Box<Ty>),
+    Range(Box<Ty>),
+    RangeIncl(Box<Ty>),
+    Heap(Box<Ty>),
+    NonZeroU32,
+    NonZeroU8,
+    Duration,
     Phantom(Box<Ty>),
     /// one of two distinct types sharing one fully qualified name
     Twin(u8),
@@ -399,6 +415,14 @@ pub fn ty_of(t: &Target) -> Ty {
         61 => Ty::Option(b(Ty::Compact(b(x())))),
         62 => Ty::Compact(b(Ty::A(j))),
         63 => Ty::Tup(vec![Ty::Compact(b(x())), y()]),
+        64 => Ty::Range(b(Ty::U32)),
+        65 => Ty::RangeIncl(b(Ty::U32)),
+        66 => Ty::Range(b(x())),
+        67 => Ty::RangeIncl(b(x())),
+        68 => Ty::Heap(b(x())),
+        69 => Ty::NonZeroU32,
+        70 => Ty::NonZeroU8,
+        71 => Ty::Duration,
         _ => Ty::U64,
     }
 }
@@ -584,6 +608,32 @@ pub fn desc(id: &Ident, spec: &GraphSpec) -> Desc {
                 docs: Some(vec![]),
             },
             Ty::Compact(x) => plain(DDef::Compact((**x).clone())),
+            Ty::Range(x) | Ty::RangeIncl(x) => Desc {
+                path: vec![s(if matches!(t, Ty::Range(_)) { "Range" } else { "RangeInclusive" })],
+                params: vec![(s("Idx"), Some((**x).clone()))],
+                def: DDef::Composite(vec![
+                    DField { name: Some(s("start")), ty: (**x).clone(), type_name: Some(s("Idx")), docs: vec![] },
+                    DField { name: Some(s("end")), ty: (**x).clone(), type_name: Some(s("Idx")), docs: vec![] },
+                ]),
+                docs: Some(vec![]),
+            },
+            Ty::Heap(x) => Desc {
+                path: vec![s("BinaryHeap")],
+                params: vec![(s("T"), Some((**x).clone()))],
+                def: DDef::Composite(vec![unnamed(Ty::Slice(x.clone()))]),
+                docs: Some(vec![]),
+            },
+            Ty::NonZeroU32 => Desc { path: vec![s("NonZeroU32")], params: vec![], def: DDef::Composite(vec![unnamed(Ty::U32)]), docs: Some(vec![]) },
+            Ty::NonZeroU8 => Desc { path: vec![s("NonZeroU8")], params: vec![], def: DDef::Composite(vec![unnamed(Ty::U8)]), docs: Some(vec![]) },
+            Ty::Duration => Desc {
+                path: vec![s("Duration")],
+                params: vec![],
+                def: DDef::Composite(vec![
+                    DField { name: None, ty: Ty::U64, type_name: Some(s("u64")), docs: vec![] },
+                    DField { name: None, ty: Ty::U32, type_name: Some(s("u32")), docs: vec![] },
+                ]),
+                docs: Some(vec![]),
+            },
             Ty::Twin(_) => Desc { path: vec![s("twins"), s("Twin")], params: vec![], def: DDef::Composite(vec![]), docs: Some(vec![]) },
             other => panic!("harness: no description for exact type {other:?}"),
         },
